@@ -247,11 +247,17 @@ func VerifHarness_ModuleChains() {
 		// main imports f from a; b (imported for g only) defines its own, unrelated f
 		form := errors.VerifNdIntRange("importForm", 0, 2) // single import, first of a list, second of a list
 		bf := errors.VerifNdIntRange("otherIsPub", 0, 1)    // whether b's unrelated f is pub or private
-		errors.VerifTag("case", fmt.Sprintf("form=%d otherIsPub=%d", form, bf))
+		order := errors.VerifNdIntRange("otherImportedFirst", 0, 1) // whether the import from b stands before the imports from a
+		errors.VerifTag("case", fmt.Sprintf("form=%d otherIsPub=%d otherImportedFirst=%d", form, bf, order))
 		a := "pub fn e() -> int { return 5; }\npub fn f() -> int { return 1; }\nfn main() { }\n"
 		b := []string{"", "pub "}[bf] + "fn f() -> int { return 2; }\npub fn g() -> int { return f() * 10; }\nfn main() { }\n"
 		imp := []string{"import f from a;\nimport e from a;\n", "import { f, e } from a;\n", "import { e, f } from a;\n"}[form]
-		main = imp + "import g from b;\nfn main() {\n  let h = f;\n  println(f(), g(), e(), h());\n}\n"
+		if order == 1 {
+			imp = "import g from b;\n" + imp
+		} else {
+			imp += "import g from b;\n"
+		}
+		main = imp + "fn main() {\n  let h = f;\n  println(f(), g(), e(), h());\n}\n"
 		modules = map[string]string{"a": a, "b": b, "main": main}
 		want = "1 20 5 1\n"
 	}
